@@ -31,14 +31,17 @@ NO = ["exp", "tanh", "sigmoid", "cauchycdf", "squeeze", "glu", "compositecdf"]  
 
 @st.composite
 def _case(draw):
-    what = draw(st.sampled_from(["pairing", "pairing", "pairing", "rowid", "ks", "noise"]))
+    what = draw(st.sampled_from(["pairing", "pairing", "pairing", "rowid", "ks", "noise", "mog_rows"]))
     flat = 1 if what == "ks" else 4
     c = draw(zoo.transform_case({"img": False, "flat_max": flat, "doms": ["R"], "fn_box": False, "multiscale": what != "ks",
                                  "regimes": ["fresh", "small", "moderate"] if what != "rowid" else ["fresh", "small"],
                                  "umnn": False, "exclude": NO + (["batchnorm", "compositecdf", "inv_R", "logtanh"] if what == "rowid" else [])}))
     c["what"] = what
     c["kind"] = draw(st.sampled_from(["flow", "flow", "flow", "maf", "realnvp"])) if what in ("pairing", "noise") else "flow"
-    c["base"] = draw(st.sampled_from(["standard", "standard", "conditional", "mademog"])) if what == "pairing" else "standard"
+    c["base"] = draw(st.sampled_from(["standard", "standard", "conditional", "mademog"])) if what == "pairing" else ("mademog" if what == "mog_rows" else "standard")
+    if what == "mog_rows" and c.get("ctx") is None:
+        c["ctx"] = 2
+        c["spec"] = {"t": "lu", "identity_init": False, "cache": False} if c["shape"][0] > 1 else {"t": "paffine", "shift": 0.5, "scale": 2.0}
     c["rows"] = draw(st.sampled_from([1, 2, 3, 4]))
     c["n"] = draw(st.integers(1, 7))
     c["embed"] = draw(st.booleans())
@@ -251,6 +254,42 @@ def run_case(case):
             res.nontrivial = True
             if dks > thr:
                 res.fail("samples_not_from_density", site, "1-D flow: KS distance between samples and integrated exp(log_prob) is %.4f > %.4f" % (dks, thr))
+            return res
+
+        if what == "mog_rows":
+            # conditional mixture base: block i must follow the mixture conditioned on context row i (first noise coordinate)
+            if ctx is None or case["base"] != "mademog":
+                return res
+            from vf.oracles import norm_cdf as _phi
+            N = 4000
+            torch.manual_seed(case["seed"] + 7)
+            out = guard(lambda: flow.sample(N, ctx))
+            if out is None or list(out.shape) != [rows, N, D]:
+                if out is not None:
+                    res.fail("shape", site, "sample(%d, context of %d rows) shape %s" % (N, rows, list(out.shape)))
+                else:
+                    res.inconclusive += 1
+                return res
+            res.nontrivial = rows >= 2
+            thr = ks_threshold(N)
+            for i in range(rows):
+                ci = ctx[i:i + 1]
+                z = guard(lambda: flow.transform_to_noise(out[i], ci.expand(N, -1)))
+                if z is None or not bool(torch.isfinite(z).all()):
+                    res.inconclusive += 1
+                    continue
+                with torch.no_grad():
+                    e = flow._embedding_net(ci)
+                    o = base._made(torch.zeros(1, D), e).reshape(1, D, 2, 3)
+                    w = torch.softmax(o[0, 0, :, 0], -1).numpy()
+                    mu = o[0, 0, :, 1].numpy()
+                    sd = (torch.nn.functional.softplus(o[0, 0, :, 2]) + base._made.epsilon).numpy()
+                dks = ks_statistic(z[:, 0].numpy(), lambda t: sum(wk * _phi((t - mk) / sk) for wk, mk, sk in zip(w, mu, sd)))
+                res.see_ratio(dks, thr)
+                if dks > thr:
+                    res.fail("block_not_from_its_context_row", site, "MADE-mixture base: block %d of sample(n, context) does not follow the mixture "
+                             "conditioned on context row %d (KS %.4f > %.4f, %d rows)" % (i, i, dks, thr, rows), rows=rows)
+                    return res
             return res
 
         if what == "noise":
